@@ -12,16 +12,19 @@
 //!      mody=<name>|- modl=<name>|- [lf:<flag>=<0|1|num> ...]`
 //!     <dir>/<name>.y and <dir>/<name>.l exist; runs CTLexerBuilder + CTParserBuilder with
 //!     explicit output paths <dir>/<name>.y.rs, <dir>/<name>.l.rs.
-//!     -> `OK <tokname-hex>=<id>,...` (token map, sorted) | `ERR <hexmsg>` | `PANIC <hexmsg>`
+//!     -> `OK` | `ERR <hexmsg>` | `PANIC <hexmsg>`
 //!
 //! `rt <yfilehex> <lfilehex> yk=G|U|O rec=C|N par=<u64>|- tpl=<hex template> # <inputhex> # <inputhex> ...`
 //!     the run-time pipeline on the same sources: YaccGrammar + from_yacc + LRNonStreamingLexerDef::from_str
 //!     + set_rule_ids(tokens_map) + RTParserBuilder::{parse_actions, parse_map}.
-//!     template (for G/U): `;`-separated `<pidx>=<labelhex>:<item>,<item>,…` with items
+//!     template (for G/U): `;`-separated `<rulenamehex>.<alt>=<labelhex>:<item>,<item>,…` with items
 //!     `A<k>` ($k), `S` ($span), `X` ($lexer.span_str($span)), `D` ($$), `P` (parse param).
 //!     -> `OK <meta> ## <result input 1> ## <result input 2> …` | `ERR <hexmsg>`
-//!     meta = `EPP <tidx>=<hex|->,… RULES <namehex>=<ridx>,… TOKS <namehex>=<tidx>,…`
-//!     result = `LEX … | VAL … | ERRS …` (format: harness/src/c13_fmt.rs)
+//!     meta = `EPP <tidx>=<hex|->,… RULES <namehex>=<ridx>,… TOKS <namehex>=<tidx>,… PRODS <syms>;…
+//!             PMAP <pidx>=<rulenamehex>.<alt>,… MISSING <n> <n>`
+//!     result = `LEX … | VAL … | ERRS … [| RED <reduction log> <id of the result>]` (format:
+//!     harness/src/c13_fmt.rs; the log lists per reduction `pidx@spanstart-spanend:` and the drained
+//!     stack entries `L<tok>.<start>.<len>.<faulty>` / `V<ridx>.<reduction id>` for the Coq wrapper model)
 #[path = "../c13_fmt.rs"]
 mod gv;
 
